@@ -951,6 +951,7 @@ func oracle(n int) {
 	o := &oracleRun{w: w, evals: map[string]int{}}
 	r := hx.NewRand(hx.SeedFromEnv() ^ 0x5eed0c10)
 	o.precedence()
+	o.sameTypeName()
 	o.injectors()
 	maxLen := 60
 	if n >= 100000 {
